@@ -180,10 +180,10 @@ class QCC(Ansatz):
             initial_var_params = np.concatenate((self.qmf_var_params, initial_var_params))
         else:
             initial_var_params = np.array(var_params)
-        self.var_params = initial_var_params
         if initial_var_params.size != self.n_var_params:
             raise ValueError(f"Expected {self.n_var_params} variational parameters but "
                              f"received {initial_var_params.size}.")
+        self.var_params = initial_var_params
         return initial_var_params
 
     def prepare_reference_state(self):
